@@ -253,7 +253,7 @@ func init() {
 	register(&PropDef{
 		ID: "C19", Level: "exploration", Engine: "txsim",
 		Rule: "case = 1-3 concurrent calls (BatchDeliver with 0-24 recipients, thorough up to 64, duplicates allowed, recipient URLs with ports, IPv6 literals, percent-escaped paths and queries; Deliver; Dereference; payload an activity, the empty object or no bytes at all) on ONE HttpSigTransport value with real httpsig RSA-SHA256 or HMAC-SHA256 signers over five signed-header lists, per-request response fates (200/201/202, any status 100-599, boundary statuses 199/203/204/301, transport error, body read error), signer failures, seeded schedule (fifo / random / sticky / PCT) over the library's goroutines, signer mutexes, signer bodies and HTTP calls, per-run clock base/zone and clock jumps; oracle at SignRequest (key, key id, headers already set, stateful signer never entered by two tasks), at HttpClient.Do (headers unchanged since signing, User-Agent/Host/Accept/Content-Type/Date, Digest, real httpsig verification of what the client receives, body bytes = signed bytes), and on results (each recipient occurrence attempted exactly once, error iff a failure, every failed recipient named, return only after all attempts finished, status classification). distinct = distinct (scenario, interleaving) event sequences.",
-		QuickCases: 2500, QuickBudgetS: 60, ThoroughBudgetS: 600,
+		QuickCases: 5000, QuickBudgetS: 150, ThoroughBudgetS: 600,
 		ExpectProbes: []string{"lock-contention-mutex"},
 		Drive:  func(c *DriveCtx, r *Rng, k int) { c.Exec(genC19(r, k, c.Tier)) },
 		Oracle: oracleC19,
